@@ -43,18 +43,44 @@ Fixpoint const_val (e : expr) : option value :=
   | _ => None
   end.
 
-(* ---------- badCond.lessAndGreater: note there is no purity gate on x ---------- *)
+(* ---------- badCond.lessAndGreater ---------- *)
+(* typep.SideEffectFree on the original, typed AST: conversions are the only accepted calls *)
+Fixpoint sef_typed (e : expr) : bool :=
+  match e with
+  | EIdent _ _ | ELit _ _ _ => true
+  | EParen x | EUnary _ x | ESliceAll x => sef_typed x
+  | EBinary _ l r => sef_typed l && sef_typed r
+  | EIndex a i => sef_typed a && sef_typed i
+  | ECall (FPrim p) args =>
+      match p with
+      | PStringOfBytes | PBytesOfString =>
+          (fix go (l : list expr) : bool := match l with [] => true | x :: r => sef_typed x && go r end) args
+      | _ => false
+      end
+  | ECall (FOpaque _ _) _ => false
+  end.
 Definition const_less (a b : expr) : bool :=
   match const_val a, const_val b with
   | Some va, Some vb => match cmp_val OLt va vb with Some true => true | _ => false end
   | _, _ => false
   end.
 
-Definition bad_cond_less_and_greater (e : expr) : bool :=
+(* before commit 408944d: no purity gate on x *)
+Definition bad_cond_less_and_greater_prefix (e : expr) : bool :=
   match e with
   | EBinary OLAnd l r =>
       match unparen l, unparen r with
       | EBinary OLt x a, EBinary OGt x' b => expr_eqb x x' && const_less a b
+      | _, _ => false
+      end
+  | _ => false
+  end.
+(* current: typep.SideEffectFree(info, lhs.X) is required as well *)
+Definition bad_cond_less_and_greater (e : expr) : bool :=
+  match e with
+  | EBinary OLAnd l r =>
+      match unparen l, unparen r with
+      | EBinary OLt x a, EBinary OGt x' b => expr_eqb x x' && sef_typed x && const_less a b
       | _, _ => false
       end
   | _ => false
@@ -85,21 +111,6 @@ Definition off_by1 (e : expr) : bool :=
   end.
 
 (* ---------- dupSubExpr ---------- *)
-(* typep.SideEffectFree on the original, typed AST: conversions are the only accepted calls *)
-Fixpoint sef_typed (e : expr) : bool :=
-  match e with
-  | EIdent _ _ | ELit _ _ _ => true
-  | EParen x | EUnary _ x | ESliceAll x => sef_typed x
-  | EBinary _ l r => sef_typed l && sef_typed r
-  | EIndex a i => sef_typed a && sef_typed i
-  | ECall (FPrim p) args =>
-      match p with
-      | PStringOfBytes | PBytesOfString =>
-          (fix go (l : list expr) : bool := match l with [] => true | x :: r => sef_typed x && go r end) args
-      | _ => false
-      end
-  | ECall (FOpaque _ _) _ => false
-  end.
 Definition dup_op (o : binop) : bool :=
   match o with OLOr | OLAnd | OLt | OGt | ORem | OEq | ONe | OLe | OGe | OQuo | OSub => true | _ => false end.
 Definition dup_float_op (o : binop) : bool :=
@@ -110,6 +121,29 @@ Definition dup_sub_expr (e : expr) : bool :=
       dup_op o && negb (is_float_ty (typeof x) && dup_float_op o) && sef_typed e && expr_eqb x y
   | _ => false
   end.
+
+(* ---------- dupArg (rules.go): `strings.Contains($x, $x)` ... with the .Pure filter; the functions of
+   the rule's list that the fragment models ---------- *)
+Definition dup_arg_prim (p : prim) : bool :=
+  match p with PStrIndex | PStrContains | PStrCompare | PBytesEqual => true | _ => false end.
+Definition dup_arg (e : expr) : bool :=
+  match e with
+  | ECall (FPrim p) [x; y] => dup_arg_prim p && expr_eqb x y && rg_pure x
+  | _ => false
+  end.
+
+(* ---------- nilValReturn (nilValReturn_checker.go): `if x == nil { return .., x, .. }` ----------
+   The statement shape is input data (the fragment has no statements and no nil): whether the if body is a
+   single return, the condition's operator is ==, its right operand is spelled nil; the left operand and the
+   returned expressions as terms (None: outside the fragment, e.g. `nil`, `false`). *)
+Record nvr_shape := {
+  nvr_single_return : bool; nvr_op_is_eq : bool; nvr_y_is_nil : bool;
+  nvr_x : expr; nvr_results : list (option expr) }.
+Definition nil_val_return (s : nvr_shape) : bool :=
+  nvr_single_return s && nvr_op_is_eq s && sef_typed (nvr_x s) && nvr_y_is_nil s &&
+  existsb (fun r => match r with Some e => expr_eqb (nvr_x s) e | None => false end) (nvr_results s).
+Definition nil_val_return_msgs (s : nvr_shape) : list string :=
+  if nil_val_return s then ["returned expr is always nil; replace " ++ print_expr (nvr_x s) ++ " with nil"] else [].
 
 (* ---------- caseOrder on type switches ---------- *)
 (* The type lattice is input data: every case entry is (type id, kind); [impl t i] is what
@@ -141,9 +175,23 @@ Fixpoint find_iface (impl : N -> N -> bool) (t : N) (ifaces : list (nat * N)) : 
   | [] => None
   | (j, i) :: r => if impl t i then Some j else find_iface impl t r
   end.
+(* before commit e000017: the untyped nil is treated like any other case type *)
+Fixpoint case_order_from_prefix (impl : N -> N -> bool) (es : list entry) (ifaces : list (nat * N)) (i : nat) : list (nat * nat) :=
+  match es with
+  | [] => []
+  | (t, k) :: r =>
+      let w := match find_iface impl t ifaces with Some j => [(i, j)] | None => [] end in
+      let ifaces' := match k with KIface => (ifaces ++ [(i, t)])%list | _ => ifaces end in
+      (w ++ case_order_from_prefix impl r ifaces' (S i))%list
+  end.
+Definition case_order_prefix (impl : N -> N -> bool) (es : list entry) : list (nat * nat) :=
+  case_order_from_prefix impl es [] 0.
+
+(* current: `case nil` is skipped *)
 Fixpoint case_order_from (impl : N -> N -> bool) (es : list entry) (ifaces : list (nat * N)) (i : nat) : list (nat * nat) :=
   match es with
   | [] => []
+  | (t, KNil) :: r => case_order_from impl r ifaces (S i)
   | (t, k) :: r =>
       let w := match find_iface impl t ifaces with Some j => [(i, j)] | None => [] end in
       let ifaces' := match k with KIface => (ifaces ++ [(i, t)])%list | _ => ifaces end in
@@ -191,6 +239,9 @@ Definition dup_sub_expr_msgs (e : expr) : list string :=
   | EBinary o _ _ => if dup_sub_expr e then ["suspicious identical LHS and RHS for `" ++ binop_str o ++ "` operator"] else []
   | _ => []
   end.
+
+Definition dup_arg_msgs (e : expr) : list string :=
+  if dup_arg e then ["suspicious duplicated args in " ++ print_expr e] else [].
 
 Fixpoint strip_spaces (s : string) : string :=
   match s with
